@@ -128,6 +128,12 @@ class Ctx:
                     "functions": prog.counts["fns"], "blocks": prog.counts["blocks"],
                     "calls": prog.counts["calls"], "asserts": prog.counts["asserts"],
                     "profile": prog.info.get("profile"), "facts_key": prog.info.get("key"), "configurations": self.configs,
+                    "normal_form": {
+                        "helpers_expanded": sorted({"%s <- %s" % (k.rsplit("::", 2)[-2] + "::" + k.rsplit("::", 1)[-1] if k.count("::") > 1 else k, h.rsplit("::", 1)[-1])
+                                                    for k, v in getattr(prog, "inlined", {}).items() for h, _ in v})[:40],
+                        "combinators_rewritten": sum(len(v) for v in getattr(prog, "expanded", {}).values()),
+                        "functions_with_rewrites": len(getattr(prog, "expanded", {})),
+                    },
                 },
                 "declined_clauses": self.declined,
                 "known_findings_hit": [k for k, _ in known_hit],
